@@ -584,13 +584,13 @@ def run(prog: Program, chk: Check):
         for d in walk_local(runf.node):
             if isinstance(d, ast.Assign) and isinstance(d.value, ast.Call) and norm(d.value) == f"self.modules.get({sock})" and lp_anc and any(x is lp_anc[0] for x in ancestors(d)):
                 v = path_of(d.targets[0])
-                if v and not guards.any_path_implies(rungs.at_expr(reads[0], rc), guards.parse(v)):
+                if v and (not guards.any_path_implies(rungs.at_expr(reads[0], rc), guards.parse(v)) or not guards.any_path_implies(rungs.at_expr(reads[0], rc), guards.parse(f"{v} is not None"))):
                     okl = True
     U.decide(okl and bool(lp_anc), fkey(runf, "service-loop-liveness"), where(runf, rc), "each ready socket is looked up in the table again right before it is read",
              f"run(): `{norm(rc)}` can read from a connection whose module an earlier frame of the same round already removed (closed socket -> OSError EBADF, not a ConnectionError)")
 
     # ---- H handler coverage -------------------------------------------------------------------------------------------------
-    H = chk.rule("C03-H", "every socket read/write on a client connection is covered by a ConnectionError handler that removes the module", 5,
+    H = chk.rule("C03-H", "every socket read/write on a client connection is covered by a ConnectionError handler that removes the module", 4,
                  "an uncovered reset on one client's socket ends run() for everybody")
     nH = 0
     for f in mm.methods.values():
